@@ -37,7 +37,7 @@ def cases(tier, seed):
         E = tsspace.arg_ts(a).num_edges
         pats = tsspace.mutation_patterns(E, "Ms" if tier == "quick" else "Mp")
         if tier == "quick":
-            pats = pats[1:2] + pats[3:]
+            pats = pats[1:2] + pats[3:4]
         for (pn, pat) in pats:
             for H in dating.H_menu(a, "quick"):
                 out.append({"arg": a, "mut": pat, "H": H, "diploid": False, "tier": tier})
@@ -167,7 +167,7 @@ def run(case):
             ep = base(ts, mutation_rate=1.0, singletons_phased=ph)
         except Exception:  # noqa: BLE001
             continue
-        for it in range(3):
+        for it in range(2 if case.get("tier") == "quick" else 3):
             plan = [("block", int(i)) for i in ep.block_order] + [("edge", int(i)) for i in ep.edge_order]
             for kind, i in plan:
                 one = np.array([i], dtype=np.int32)
